@@ -254,12 +254,13 @@ def check(prog: Program, tier: str) -> Result:
     _r19_6(prog, res)
     _r19_7(prog, res)
     _r19_8(prog, res)
+    _r19_9(prog, res)
     # a renamed binding is rewritten as ONE transaction (R19.3); that only keeps definition and uses together if the
     # scheduler applies a transaction wholly or not at all - decided by the C10 check, adopted here
     from . import c10 as _c10
     res.adopt(_c10.check(prog, tier), {"R10.1", "R10.3", "R10.6"}, "R19.3",
               "a rename is consistent only if its transaction is applied as a whole or not at all")
-    res.floors.update({"R19.1": 8, "R19.2": 4, "R19.3": 2, "R19.4": 1, "R19.5": 1, "R19.6": 1, "R19.7": 2, "R19.8": 6})
+    res.floors.update({"R19.1": 8, "R19.2": 4, "R19.3": 2, "R19.4": 1, "R19.5": 1, "R19.6": 1, "R19.7": 2, "R19.8": 6, "R19.9": 1})
     res.analysed.update({"named_node_constructions_reaching_output": n_ctor, "guarded_name_generators": sorted(f"{a}.{b}" for a, b in gens)})
     return res
 
@@ -762,6 +763,34 @@ def _r19_8(prog: Program, res: Result) -> None:
                    f"names bound through {what} (ast.{cls}) are not among the defined names: a variable can be renamed to, or a binder synthesised with, a name that is taken")
 
 
+def _r19_9(prog: Program, res: Result) -> None:
+    """`global hitCount` / `nonlocal total` name a variable by a plain STRING, which no renaming touches.  Renaming the Name nodes of
+    such a variable splits it: the module-level `HIT_COUNT`, `global hitCount` in the function, and the assignment there becomes a
+    new local.  Obligation: every yield of the convention-renaming rule is reached only under the negative outcome of a test of
+    the old name(s) against a collection built from the ast.Global and ast.Nonlocal statements of the module."""
+    from ..defuse import bindings
+    from ..pathcond import PathAnalysis, plain
+    fn = prog.func("fixes", "align_variable_names_with_convention")
+    declared = set()
+    for nm, defs in bindings(fn).items():
+        for _s, v in defs:
+            if v is not None and "ast.Global" in norm(v) and "ast.Nonlocal" in norm(v) and ".names" in norm(v):
+                declared.add(nm)
+    ys = [y for y in walk_own(fn.node) if isinstance(y, ast.Yield)]
+    if not ys:
+        raise AnalysisError("align_variable_names_with_convention has no yield")
+    pa = PathAnalysis(prog, fn)
+    ok = bool(declared)
+    for y in ys:
+        worlds = pa.worlds_at(y)
+        good = bool(worlds) and all(any(f[0] == "lit" and not f[2] and any(d in plain(f[1]) for d in declared) for f in w.facts) for w in worlds)
+        ok = ok and good
+    res.decide(ok, "R19.9", fn.loc(ys[0]), fn.fq, "names declared global / nonlocal",
+               "a name that occurs in a global / nonlocal statement is never renamed" if ok else
+               "renamings are yielded without testing the old name against the names of the global / nonlocal statements: those are plain strings that stay, "
+               "so `hitCount` becomes `HIT_COUNT` at module level while the function still says `global hitCount` and binds a new local")
+
+
 def _r19_7(prog: Program, res: Result) -> None:
     """Two small agreement rules around 'which references belong to the definition that is renamed or moved'.
     (a) KIND of name: a set that is consulted with the name of a definition (`funcdef.name in S`) to decide whether its
@@ -811,6 +840,7 @@ def _r19_7(prog: Program, res: Result) -> None:
 from ..selftest import Variant  # noqa: E402
 
 VARIANTS: List[Variant] = [
+    Variant("declared-names-renamed", "FIRE", "fixes", "        if old_names & declared_names:\n            continue  # \"global hitCount\" would no longer be about the renamed variable\n", "", "R19.9"),
     Variant("except-as-names-not-defined-names", "FIRE", "tracing", "        | {node.name for node in core.walk(root, ast.ExceptHandler(name=str))}\n", "", "R19.8"),
     Variant("blacklist-of-dotted-import-names", "FIRE", "fixes",
             "    return (\n        tracing.get_import_bound_names(ast_tree)\n        | constants.BUILTIN_FUNCTIONS", "    return (\n        tracing.get_imported_names(ast_tree)\n        | constants.BUILTIN_FUNCTIONS", "R19.2"),
